@@ -154,7 +154,8 @@ where
                                 listener.lock().unwrap().basic_dispatch(&char);
                             } else if char == SP || char == GREATER {
                             } else if char == CAN || char == SUB {
-                                listener.lock().unwrap().draw(&char);
+                                // CAN and SUB abort the sequence; they are part of
+                                // it and must not reach the screen as text.
                                 break;
                             } else if char.chars().next().unwrap().is_ascii_digit() {
                                 current.push(char.chars().next().unwrap());
@@ -289,7 +290,8 @@ where
                                 listener.lock().unwrap().basic_dispatch(&char);
                             } else if char == SP || char == GREATER {
                             } else if char == CAN || char == SUB {
-                                listener.lock().unwrap().draw(&char);
+                                // CAN and SUB abort the sequence; they are part of
+                                // it and must not reach the screen as text.
                                 break;
                             } else if char.chars().next().unwrap().is_ascii_digit() {
                                 current.push(char.chars().next().unwrap());
